@@ -109,6 +109,34 @@ Proof.
   repeat f_equal; field; lra.
 Qed.
 
+(* ---- what unitcell_volumes returns (the determinant of the reported row matrix) is positive exactly for the angle
+        triples with positive Gram determinant, and then equals la lb lc sqrt(gram) *)
+Lemma radicand_nonneg_of_gram : 0 <= gram ca cb cg -> 0 <= radicand.
+Proof.
+  intros Hg. pose proof radicand_gram as H. assert (0 < sg * sg) by (apply Rmult_lt_0_compat; lra).
+  assert (0 <= lc * lc * gram ca cb cg) by (apply Rmult_le_pos; [nra|exact Hg]).
+  destruct (Rle_or_lt 0 radicand) as [|Hn]; [assumption|]. assert (sg * sg * radicand < 0) by nra. lra.
+Qed.
+
+Lemma volume_pos_iff : 0 < det3 va vb vc <-> 0 < gram ca cb cg.
+Proof.
+  split.
+  - intros Hv. apply radicand_pos_iff. destruct orientation as [_ [_ [_ [_ Hd]]]]. rewrite Hd in Hv.
+    destruct (Rle_or_lt radicand 0) as [Hn|]; [|assumption].
+    rewrite (sqrt_neg_0 _ Hn) in Hv. lra.
+  - intros Hg. apply volume_positive. apply radicand_pos_iff. exact Hg.
+Qed.
+
+Lemma volume_formula : 0 <= gram ca cb cg -> det3 va vb vc = la * lb * lc * sqrt (gram ca cb cg).
+Proof.
+  intros Hg. destruct orientation as [_ [_ [_ [_ ->]]]].
+  pose proof (radicand_nonneg_of_gram Hg) as Hr.
+  assert (E : sg * sqrt radicand = lc * sqrt (gram ca cb cg)).
+  { rewrite <- (sqrt_square sg) at 1 by lra. rewrite <- (sqrt_square lc) at 1 by lra.
+    rewrite <- !sqrt_mult; try nra. f_equal. apply radicand_gram. }
+  replace (la * lb * sg * sqrt radicand) with (la * lb * (sg * sqrt radicand)) by ring. rewrite E. ring.
+Qed.
+
 End Construction.
 
 (* ---- the naming convention of box_vectors_to_lengths_and_angles, against the hand-written convention *)
